@@ -71,6 +71,11 @@ impl BCost for i32 {
         w as i32
     }
 }
+impl BCost for i8 {
+    fn of(w: i64) -> Self {
+        w as i8
+    }
+}
 impl BCost for i64 {
     fn of(w: i64) -> Self {
         w
@@ -406,6 +411,104 @@ pub fn run(c: &Case) -> Outcome {
     Ok(obs)
 }
 
+// ---------------------------------------------------------------------------------------------
+// bounded integer costs near the limits of the type (i8): sums along non-shortest walks overflow,
+// the answers themselves are representable
+
+pub fn strategy_i8(tier: Tier) -> BoxedStrategy<Case> {
+    let (maxn, maxm) = if tier == Tier::Quick { (6, 14) } else { (9, 24) };
+    (raw_graph(1, maxn, maxm, None), any::<u8>(), any::<u8>(), any::<u16>(), 0u8..4, 0u8..6)
+        .prop_map(|(g, enc, salt, src, wmode, cost)| mk(g, enc, salt, src, wmode, cost))
+        .boxed()
+}
+
+pub fn run_i8(c: &Case) -> Outcome {
+    let mut a = match c.wmode % 4 {
+        0 => c.g.build(&GOpts::new(true, true, -128, 127)),
+        1 => c.g.build(&GOpts::new(true, true, -128, 20)),
+        2 => c.g.build(&GOpts::new(true, true, -20, 127)),
+        _ => c.g.build(&GOpts::new(true, true, -9, 9)),
+    };
+    if c.wmode % 4 == 3 {
+        // small weights with a few huge ones
+        for (i, e) in a.edges.iter_mut().enumerate() {
+            if (i + c.salt as usize) % 3 == 0 {
+                e.2 = (e.2 * 14).clamp(-128, 127);
+            }
+        }
+    }
+    // Domain: bounded arithmetic must be able to hold every upper estimate an algorithm forms, or
+    // "reachable" itself stops being decidable for it (a cycle behind a path of cost >= 127 = max()).
+    // The positive weights are scaled so that they sum to at most 126: then every simple path, and
+    // with it every finite estimate, is below max(); what is left is overflow on the negative side.
+    let pos: i64 = a.edges.iter().map(|e| e.2.max(0) as i64).sum();
+    if pos > 126 {
+        for e in a.edges.iter_mut() {
+            if e.2 > 0 {
+                e.2 = (e.2 as i64 * 126 / pos) as i32;
+            }
+        }
+    }
+    let n = a.n;
+    let mut obs = Obs::default();
+    let s = pick(c.src, n);
+    let all: Vec<Option<Vec<i64>>> = (0..n).map(|x| a.dist_from(x)).collect();
+    // 127 is `max()`, the "unreachable" marker: a true distance must lie in -128..=126 to be representable
+    let fits = |d: &Vec<i64>| d.iter().all(|&x| x >= INF || (-128..=126).contains(&x));
+    let any_neg = all.iter().any(|d| d.is_none());
+    let floyd_domain = any_neg || all.iter().all(|d| fits(d.as_ref().unwrap()));
+    let spfa_domain = match &all[s] {
+        None => true,
+        Some(d) => fits(d),
+    };
+    let gix = (0..n).map(NodeIndex::<u32>::new);
+    // the same call with i64 costs: tells a failure of the i8 run that bounded arithmetic causes
+    // from one that the algorithm has for every cost type
+    macro_rules! both {
+        ($g:expr, $v:expr) => {{
+            if spfa_domain {
+                if let Err(f) = check_spfa::<_, i8>($g, $v, c, &mut obs) {
+                    let wide_ok = check_spfa::<_, i64>($g, $v, c, &mut obs).is_ok();
+                    let f = if wide_ok && f.sig == "C11/spfa-missed-negative-cycle" {
+                        Failure { sig: "C11/spfa-missed-negative-cycle/bounded-cost-underflow".into(), msg: format!("{} (cost type i8; the same call with i64 costs reports the cycle) graph {:?}", f.msg, a) }
+                    } else {
+                        Failure { sig: f.sig, msg: format!("{} (cost type i8) graph {:?}", f.msg, a) }
+                    };
+                    obs.deferred.push(f);
+                }
+                obs.label("spfa: answers representable in i8");
+            }
+            if floyd_domain {
+                if let Err(f) = check_floyd::<_, i8>($g, $v, c, &mut obs) {
+                    let wide_ok = check_floyd::<_, i64>($g, $v, c, &mut obs).is_ok();
+                    let verdict = f.sig.ends_with("negative-cycle-verdict") && any_neg;
+                    let f = if wide_ok && verdict {
+                        Failure { sig: "C11/floyd_warshall-missed-negative-cycle/bounded-cost-underflow".into(), msg: format!("{} (cost type i8; the same call with i64 costs reports the cycle) graph {:?}", f.msg, a) }
+                    } else {
+                        Failure { sig: f.sig, msg: format!("{} (cost type i8) graph {:?}", f.msg, a) }
+                    };
+                    obs.deferred.push(f);
+                }
+                obs.label("floyd_warshall: answers representable in i8");
+            }
+        }};
+    }
+    if a.directed {
+        let g: Graph<usize, i32, Directed, u32> = to_graph(&a, |w| w);
+        let v = View::full(&a, gix);
+        both!(&g, &v);
+    } else {
+        let g: Graph<usize, i32, Undirected, u32> = to_graph(&a, |w| w);
+        let v = View::full(&a, gix);
+        both!(&g, &v);
+    }
+    let big = a.edges.iter().filter(|e| e.2.abs() >= 64).count();
+    obs.label_if(any_neg, "negative cycle somewhere");
+    obs.label_if(!spfa_domain || !floyd_domain, "some answer not representable in i8 (that algorithm skipped)");
+    obs.nontrivial = big >= 2 && (spfa_domain || floyd_domain) && n >= 2;
+    Ok(obs)
+}
+
 pub fn property() -> Property {
     Property {
         id: "C11",
@@ -415,6 +518,7 @@ pub fn property() -> Property {
         subs: vec![
             sub("negcost/general", 3_000_000, 40_000_000, strategy, run),
             sub("negcost/dense-negative-dag", 1_200_000, 20_000_000, strategy_dense_dag, run),
+            sub("negcost/i8-extremes", 1_000_000, 20_000_000, strategy_i8, run_i8),
         ],
     }
 }
